@@ -2,8 +2,8 @@
    Spec/SbomProvSpec.v).  The first lemmas compute with Generated/C11Prov.v: they hold
    because of what goextract read from pkg/build/sbom.go on this run. *)
 From Coq Require Import Permutation Sorted.
-From Apko Require Import Base.Prelude Base.C01Lib Base.C11Lib Generated.C11Prov Model.Sbom Model.SbomProv
-  Spec.SbomSpec Spec.SbomProvSpec Proofs.SbomProofs.
+From Apko Require Import Base.Prelude Base.C01Lib Base.C11Lib Generated.C11Prov Model.Sbom Model.SbomLic Model.SbomProv
+  Spec.SbomSpec Spec.SbomLicSpec Spec.SbomProvSpec Proofs.SbomProofs Proofs.SbomLicProofs.
 Open Scope string_scope. Open Scope list_scope.
 
 (* ---- the image SBOM ------------------------------------------------------------ *)
@@ -43,6 +43,13 @@ Proof.
   rewrite image_sbom_is_generate. intros NE H.
   destruct (generate_plain_digests perm _ d NE H) as [D L]. split; [apply D; apply hash_string_nonempty|].
   split; [exact L|]. intro N. exact (generate_one_per_apk perm _ d NE N H).
+Qed.
+
+Lemma built_image_licensing perm b lfs d l : image_sbom_full perm b lfs = Ok (d, l) ->
+  image_sbom perm b = Ok d /\ LicPreserved (used_lists (b_fs b) lfs (List.map i_apk (b_installed b))) l.
+Proof.
+  unfold image_sbom_full. rewrite image_sbom_is_generate, image_sbom_input_spec. intro H.
+  exact (generate_full_ok perm (expected_input b) lfs d l H).
 Qed.
 
 (* ---- the index SBOM ------------------------------------------------------------- *)
